@@ -36,7 +36,7 @@ func c13RefString(b []byte) string {
 	s := ""
 	for _, x := range b {
 		r := rune(x)
-		if unicode.IsPrint(r) {
+		if unicode.IsPrint(r) && r != '\\' { // the escape introducer itself is escaped (F44)
 			s += string(r)
 		} else {
 			s += fmt.Sprintf("\\u%04x", r)
